@@ -5,6 +5,7 @@ from hypothesis import strategies as st
 from vlib import strat as S, oracles as O, harness
 
 ID = "C16"
+SWITCH_OFF = 6        # every 6th case runs with xfab.CHECKS switched off (results must not depend on it)
 EXHAUSTIVE = True
 RULE = ("exhaustive: all table entries x 2001-point grid s in [0,2] (f(0)=Z within 0.1, positivity, monotonicity decided "
         "analytically from the signs of a_i*b_i where possible, otherwise on the grid with a Lipschitz bound on f' between "
